@@ -1,12 +1,13 @@
 (* Props/C16.v — property C16: separate streams are independent under concurrent use.
    Partial: data-race freedom is a property of the Go memory model that an executable model cannot exhibit; what is
    proved is the logical half — non-interference of instance-local steps for every interleaving — and its premise is
-   tied to the code by a generated fact: the current source contains no store to package-level state outside package
-   initialisation (SSA scan of everything reachable from pkg/otel/arrow_record).  Concurrent runs of the real code
+   tied to the code by two generated facts: the current source contains no store to package-level state outside package
+   initialisation, and no package-level variable holds a stateful object (SSA scan of everything reachable from
+   pkg/otel/arrow_record).  Concurrent runs of the real code
    (each stream compared with its solo run; `-race` in the thorough tier) are supporting evidence. *)
 From Coq Require Import String.
 From Verif Require Import Base.ListX Indep.Frame Indep.StoresBaseline.
-From VerifGen Require Import GlobalStores.
+From VerifGen Require Import GlobalStores GlobalVars.
 
 (* any number of instances, any schedule: each instance's outputs and final state are those of its solo run *)
 Theorem C16_noninterference_partial : forall (Env St In Out : Type) (step : Env -> St -> In -> St * Out) env sched sts d i,
@@ -20,6 +21,12 @@ Print Assumptions C16_noninterference_partial.
 Theorem C16_no_shared_mutable_state : forallb allowed_store global_stores = true.
 Proof. vm_compute. reflexivity. Qed.
 Print Assumptions C16_no_shared_mutable_state.
+
+(* ... and every package-level variable that can reach memory at all is an error value, an immutable library
+   prototype or a read-only lookup table: no instance can reach a stateful object of another through package state *)
+Theorem C16_no_shared_stateful_objects : forallb allowed_global global_vars = true.
+Proof. vm_compute. reflexivity. Qed.
+Print Assumptions C16_no_shared_stateful_objects.
 
 Example C16_example :
   let step := fun (_ : unit) (s : N) (x : N) => (s + x, s + x) in
